@@ -14,7 +14,7 @@ import (
 )
 
 func init() {
-	props["C11"] = &prop{gen: genC11, run: runC11}
+	props["C11"] = &prop{gen: genC11, run: runC11, concurrent: 8}
 }
 
 func genC11(g *gen) {
